@@ -187,6 +187,9 @@ fn parse_set_safe_command(command: &mut std::str::SplitN<&str>) -> Result<Reques
 
     let version = match rest.next() {
         Some(value) => match i32::from_str_radix(&value.replace("\n", ""), 10) {
+            // Versions below -1 are internal markers (-2 = key in conflict resolution): a client
+            // presenting one would forge that state, and -2 stores the on-disk "deleted" version
+            Ok(n) if n < -1 => return Err(String::from("Invalid version!")),
             Ok(n) => n,
             _ => -1,
         },
